@@ -127,6 +127,7 @@ def get_discriminated_parent(cls: type) -> Optional[type]:
 
 
 def get_inherited_discriminator(types: Iterable[AnyType]) -> Optional[Discriminator]:
+    types = list(types)
     discriminators = [
         {
             base
@@ -135,6 +136,11 @@ def get_inherited_discriminator(types: Iterable[AnyType]) -> Optional[Discrimina
         }
         for tp in types
     ]
-    for cls in reduce(operator.and_, discriminators):
-        return _discriminators[cls]
+    common = reduce(operator.and_, discriminators)
+    # several common discriminated parents: the nearest one (as get_discriminated_parent),
+    # not an arbitrary element of the set
+    for tp in types[:1]:
+        for base in getattr(get_origin_or_type2(tp), "__mro__", ()):
+            if base in common:
+                return _discriminators[base]
     return None
